@@ -46,6 +46,9 @@ def run(R):
         check_base_read(c, repo.func('spawnbase:SpawnBase.read_nonblocking'))
     with R.clause('D4', 'ONCE', floor=6, desc='pipe transport: every chunk queued, sentinel once and last, consumer appends every item') as c:
         check_pipe(c, repo)
+    with R.clause('D5', 'PAIR', floor=3, desc='a socket\'s own timeout setting is left as it was found (restore in a finally)') as c:
+        from .c05 import check_socket_timeout
+        check_socket_timeout(c, repo)
     with R.clause('D6', 'FLOW', floor=5, desc='data that was read is returned or parked on every explicit exit path') as c:
         for f in impls:
             check_no_discard(c, f)
@@ -340,6 +343,7 @@ MUTANTS = [
     ('loop-eof-discards', 'pty_spawn', "                    # Don't raise EOF, just return what we read so far.\n                    return incoming", "                    raise", 'D6'),
     ('socket-return-empty', 'socket_pexpect', "                self._log(s, 'read')\n                return s", "                self._log(s, 'read')\n                return self.string_type()", 'D6'),
     ('popen-eof-discards-buf', 'popen_spawn', "            if buf:\n                self._buf = buf[size:]\n                return buf[:size]\n            else:\n                self.flag_eof = True\n                raise EOF('End Of File (EOF).')", "            self.flag_eof = True\n            raise EOF('End Of File (EOF).')", 'D6'),
+    ('socket-restore-not-finally', 'socket_pexpect', "        try:\n            self.socket.settimeout(timeout)\n            yield\n        finally:\n            self.socket.settimeout(saved_timeout)", "        self.socket.settimeout(timeout)\n        yield\n        self.socket.settimeout(saved_timeout)", 'D5'),
     ('fd-read-without-wait', 'fdpexpect', "            if self.child_fd not in rlist:\n                raise TIMEOUT('Timeout exceeded.')", "            pass", 'D7'),
     ('cached-fd', 'spawnbase', "s = os.read(self.child_fd, size)", "s = os.read(self.fileno_cached, size)", 'D3'),
 ]
